@@ -156,6 +156,11 @@ fn gen(t: &mut Tape, _tier: Tier) -> Scenario {
         // succeeds must still deliver exactly what the unlimited run delivers
         opts.allow_incomplete = t.below(4) == 0;
     }
+    if which < 2 && t.below(4) == 0 {
+        // the one-shot decoder does not know the option: with it set, everything
+        // must be exactly as without it (the strict rules below apply)
+        opts.allow_incomplete = true;
+    }
     if which != 2 && t.below(2) == 0 {
         sc.set_l("src_script", crate::gen::draw_script(t));
     }
@@ -253,7 +258,12 @@ fn exec(sc0: &Scenario, ctx: &mut Ctx) -> Vec<Violation> {
         }
     }
     let lying_size = sc.i("lying_size") == 1;
-    if opts.allow_incomplete {
+    // the relaxed rules are Stream's (finish skips its last pass under that option)
+    let relaxed = opts.allow_incomplete && sc.i("ep") == EP_STREAM;
+    if opts.allow_incomplete && !relaxed {
+        ctx.stats.hit("arm.one_shot_with_incomplete_input_allowed");
+    }
+    if relaxed {
         // finish neither verifies the end of the stream nor decodes the look-ahead tail:
         // of the unlimited run only "Ok, and no wrong byte" can be demanded here
         if lying_size {
@@ -277,12 +287,12 @@ fn exec(sc0: &Scenario, ctx: &mut Ctx) -> Vec<Violation> {
     if sc.i("lying_header") == 1 {
         ctx.stats.hit("probe.header_announces_huge_dictionary");
     }
-    if lying_size && !opts.allow_incomplete {
+    if lying_size && !relaxed {
         // both runs fail at the end of the input; delivered bytes must be a prefix
         if v1.is_ok() || bad1.is_some() {
             return mk("limit_changes_result", format!("limited run: {}", v1.short()));
         }
-    } else if opts.allow_incomplete {
+    } else if relaxed {
         ctx.stats.hit("arm.stream_with_incomplete_input_allowed");
         if v1.is_ok() && (out1 != out0 || !v0.is_ok()) {
             return mk(
